@@ -628,6 +628,7 @@ class Ctx:
         self.max_unroll = max_unroll
         self.stats = {"eqns": 0, "sym_eqns": 0, "havoc": []}
         self.last_closed = None
+        self.replay_model = None   # replay mode: stub draws are replaced by the model's values, everything else runs on real primitives
 
     def fresh(self, name, dt):
         dt = np.dtype(dt)
@@ -714,13 +715,41 @@ CONTROL = {"pjit", "cond", "while", "scan", "custom_jvp_call", "custom_vjp_call"
 RANDOM = {"random_bits", "random_split", "random_wrap", "random_unwrap", "random_seed", "random_fold_in", "threefry2x32"}
 
 
+def _concretize(model, sv):
+    """SV -> concrete SV under a z3 model (replay mode)"""
+    import struct
+    if sv.conc:
+        return sv
+    out = np.empty(sv.shape, dtype=sv.dtype)
+    of = out.reshape(-1)
+    k = sv.dtype.kind
+    for i, x in enumerate(sv.a.reshape(-1)):
+        if not is_sym(x):
+            of[i] = x
+            continue
+        v = model.eval(x, model_completion=True)
+        if k == "b":
+            of[i] = z3.is_true(v)
+        elif k == "i":
+            of[i] = v.as_signed_long()
+        elif k == "u":
+            of[i] = v.as_long()
+        else:
+            bv = z3.simplify(z3.fpToIEEEBV(v))
+            of[i] = struct.unpack("<f", struct.pack("<I", bv.as_long()))[0] if z3.is_bv_value(bv) else np.nan
+    return SV(out, sv.dtype)
+
+
 def eval_eqn(ctx, eqn, ins):
     name = eqn.primitive.name
     p = eqn.params
     if name in CONTROL:
         return eval_control(ctx, eqn, ins)
     if name in RANDOM:
-        return eval_random(ctx, eqn, ins)
+        outs = eval_random(ctx, eqn, ins)
+        if ctx.replay_model is not None and name == "random_bits":
+            outs = [_concretize(ctx.replay_model, o) for o in outs]
+        return outs
     if all(i.conc for i in ins):
         # concrete: evaluate with the real primitive
         vals = [jnp.asarray(i.a) for i in ins]
@@ -744,6 +773,8 @@ def eval_control(ctx, eqn, ins):
         if fn in STUBS:
             r = STUBS[fn](ctx, eqn, ins)
             if r is not None:
+                if ctx.replay_model is not None:
+                    r = [_concretize(ctx.replay_model, o) for o in r]
                 return r
         cj = p["jaxpr"]
         return eval_jaxpr(ctx, cj.jaxpr, cj.consts, ins)
